@@ -259,3 +259,748 @@ Proof.
   { apply appender_bytes; [unfold len; rewrite obe_bytes_length; lia|lia|apply obe_bytes_ok]. }
   now rewrite Nat2Z.id, firstn_all2 in H by (rewrite obe_bytes_length; lia).
 Qed.
+
+(* ------------------------------------------------------------------ *)
+(** * The fixed-width appenders *)
+
+Lemma oappend_uint8_eq s v : oappend_uint8 s v = oappend_bytes s (be_bytes 1 v) (Z.of_nat 1).
+Proof. reflexivity. Qed.
+Lemma oappend_uint16_eq s v : oappend_uint16 s v = oappend_bytes s (be_bytes 2 (u16 v)) (Z.of_nat 2).
+Proof. reflexivity. Qed.
+Lemma oappend_uint32_eq s v : oappend_uint32 s v = oappend_bytes s (be_bytes 4 (u32 v)) (Z.of_nat 4).
+Proof. reflexivity. Qed.
+Lemma oappend_uint64_eq s v : oappend_uint64 s v = oappend_bytes s (be_bytes 8 (u64 v)) (Z.of_nat 8).
+Proof. reflexivity. Qed.
+
+Lemma app_u8 v w : v mod 256 = w mod 256 -> appender (fun s => oappend_uint8 s v) (be_bytes 1 w).
+Proof.
+  intros E. eapply appender_ext; [intro; apply oappend_uint8_eq|].
+  replace (be_bytes 1 w) with (be_bytes 1 v) by (apply (be_bytes_congr 1 8); [lia|exact E]).
+  apply appender_be. lia.
+Qed.
+
+Lemma app_u16 v w : v mod 65536 = w mod 65536 -> appender (fun s => oappend_uint16 s v) (be_bytes 2 w).
+Proof.
+  intros E. eapply appender_ext; [intro; apply oappend_uint16_eq|].
+  replace (be_bytes 2 w) with (be_bytes 2 (u16 v)).
+  - apply appender_be. lia.
+  - apply (be_bytes_congr 2 16); [lia|]. change (2 ^ 16) with 65536. unfold u16. rewrite Z.mod_mod by lia. exact E.
+Qed.
+
+Lemma app_u32 v w : v mod 4294967296 = w mod 4294967296 ->
+  appender (fun s => oappend_uint32 s v) (be_bytes 4 w).
+Proof.
+  intros E. eapply appender_ext; [intro; apply oappend_uint32_eq|].
+  replace (be_bytes 4 w) with (be_bytes 4 (u32 v)).
+  - apply appender_be. lia.
+  - apply (be_bytes_congr 4 32); [lia|]. change (2 ^ 32) with 4294967296. unfold u32.
+    rewrite Z.mod_mod by lia. exact E.
+Qed.
+
+Lemma app_u64 v w : v mod 18446744073709551616 = w mod 18446744073709551616 ->
+  appender (fun s => oappend_uint64 s v) (be_bytes 8 w).
+Proof.
+  intros E. eapply appender_ext; [intro; apply oappend_uint64_eq|].
+  replace (be_bytes 8 w) with (be_bytes 8 (u64 v)).
+  - apply appender_be. lia.
+  - apply (be_bytes_congr 8 64); [lia|]. change (2 ^ 64) with 18446744073709551616. unfold u64.
+    rewrite Z.mod_mod by lia. exact E.
+Qed.
+
+Lemma app_i8 v w : v mod 256 = w mod 256 -> appender (fun s => oappend_int8 s v) (be_bytes 1 w).
+Proof. intros E. unfold oappend_int8. apply app_u8. rewrite <- E. unfold u8, s8. lia. Qed.
+Lemma app_i16 v w : v mod 65536 = w mod 65536 -> appender (fun s => oappend_int16 s v) (be_bytes 2 w).
+Proof. intros E. unfold oappend_int16. apply app_u16. rewrite <- E. unfold u16, s16. lia. Qed.
+Lemma app_i32 v w : v mod 4294967296 = w mod 4294967296 ->
+  appender (fun s => oappend_int32 s v) (be_bytes 4 w).
+Proof. intros E. unfold oappend_int32. apply app_u32. rewrite <- E. unfold u32, s32. lia. Qed.
+Lemma app_i64 v w : v mod 18446744073709551616 = w mod 18446744073709551616 ->
+  appender (fun s => oappend_int64 s v) (be_bytes 8 w).
+Proof. intros E. unfold oappend_int64. apply app_u64. rewrite <- E. unfold u64, s64. lia. Qed.
+
+Lemma be_bytes_S k v : be_bytes (S k) v = [u8 (Z.shiftr v (8 * Z.of_nat k))] ++ be_bytes k v.
+Proof. reflexivity. Qed.
+
+(** one octet followed by a 16 bit value: the 3 octet forms *)
+Lemma app_3 (A1 A2 : cur -> cres cur) x v w :
+  appender A1 (be_bytes 1 x) -> appender A2 (be_bytes 2 w) ->
+  x mod 256 = Z.shiftr v 16 mod 256 -> w mod 65536 = v mod 65536 ->
+  appender (fun s => let+ s1 := A1 s in A2 s1) (be_bytes 3 v).
+Proof.
+  intros H1 H2 E1 E2. rewrite (be_bytes_S 2 v).
+  replace [u8 (Z.shiftr v (8 * Z.of_nat 2))] with (be_bytes 1 x).
+  - replace (be_bytes 2 v) with (be_bytes 2 w) by (apply (be_bytes_congr 2 16); [lia|exact E2]).
+    now apply appender_seq.
+  - cbn [be_bytes]. change (8 * Z.of_nat 0) with 0. change (8 * Z.of_nat 2) with 16.
+    rewrite Z.shiftr_0_r. unfold u8. now rewrite E1.
+Qed.
+
+Lemma shiftr_u32_16 v : Z.shiftr (u32 v) 16 mod 256 = Z.shiftr v 16 mod 256.
+Proof. apply (u8_shiftr_mod v 32 16); lia. Qed.
+
+(* ------------------------------------------------------------------ *)
+(** * Every encoder call is an appender of its specified octets *)
+
+Lemma lendet_form4 l : 65536 <= l < 16777216 ->
+  be_bytes 4 (Z.lor l (u32 (Z.shiftl 131 24))) = 131 :: be_bytes 3 l.
+Proof.
+  intros H. change (u32 (Z.shiftl 131 24)) with 2197815296.
+  rewrite Z.lor_comm. rewrite (lor_add 24) by (change (2 ^ 24) with 16777216; lia).
+  rewrite (be_bytes_S 3). cbn [app]. f_equal.
+  - change (8 * Z.of_nat 3) with 24. rewrite Z.shiftr_div_pow2 by lia.
+    change (2 ^ 24) with 16777216. unfold u8. lia.
+  - apply (be_bytes_congr 3 24); [lia|]. change (2 ^ 24) with 16777216. lia.
+Qed.
+
+Lemma oeop_appender o : oeop_ok o -> oeop_is_abort o = false ->
+  appender (fun s => run_oeop s o) (oeop_spec o).
+Proof.
+  intros Ok NA.
+  destruct o; cbn [run_oeop oeop_spec oeop_ok oeop_is_abort] in *; try discriminate.
+  - (* OBytes *) destruct Ok as (H1 & H2 & H3). apply appender_bytes; auto; lia.
+  - now apply app_u8.
+  - now apply app_u16.
+  - now apply app_u32.
+  - now apply app_u64.
+  - now apply app_i8.
+  - now apply app_i16.
+  - now apply app_i32.
+  - now apply app_i64.
+  - (* OUint *)
+    unfold oappend_uint. rewrite (u8_small n) by lia.
+    destruct (n =? 1) eqn:E1; [|destruct (n =? 2) eqn:E2; [|destruct (n =? 3) eqn:E3]].
+    + replace n with 1 by lia. change (Z.to_nat _) with 1%nat.
+      apply app_u8. unfold u8, u32. lia.
+    + replace n with 2 by lia. change (Z.to_nat _) with 2%nat.
+      apply app_u16. unfold u16, u32. lia.
+    + replace n with 3 by lia. change (Z.to_nat _) with 3%nat.
+      apply (app_3 (fun s => oappend_uint8 s (u8 (Z.shiftr (u32 v) 16)))
+                   (fun s => oappend_uint16 s (u16 (u32 v))) (u8 (Z.shiftr (u32 v) 16)) v (u16 (u32 v))).
+      * now apply app_u8.
+      * now apply app_u16.
+      * unfold u8 at 1. rewrite Z.mod_mod by lia. apply shiftr_u32_16.
+      * unfold u16, u32. lia.
+    + destruct ((1 <=? n) && (n <=? 3)) eqn:E; [lia|]. change (Z.to_nat 4) with 4%nat.
+      apply app_u32. unfold u32. lia.
+  - (* OInt *)
+    unfold oappend_int. rewrite (u8_small n) by lia.
+    destruct (n =? 1) eqn:E1; [|destruct (n =? 2) eqn:E2; [|destruct (n =? 3) eqn:E3]].
+    + replace n with 1 by lia. change (Z.to_nat _) with 1%nat.
+      apply app_i8. unfold s8, s32. lia.
+    + replace n with 2 by lia. change (Z.to_nat _) with 2%nat.
+      apply app_i16. unfold s16, s32. lia.
+    + replace n with 3 by lia. change (Z.to_nat _) with 3%nat.
+      apply (app_3 (fun s => oappend_uint8 s (u8 (Z.shiftr (u32 (s32 v)) 16)))
+                   (fun s => oappend_int16 s (s16 (s32 v))) (u8 (Z.shiftr (u32 (s32 v)) 16)) v (s16 (s32 v))).
+      * now apply app_u8.
+      * now apply app_i16.
+      * unfold u8 at 1. rewrite Z.mod_mod by lia.
+        replace (u32 (s32 v)) with (u32 v) by (unfold u32, s32; lia). apply shiftr_u32_16.
+      * unfold s16, s32. lia.
+    + destruct ((1 <=? n) && (n <=? 3)) eqn:E; [lia|]. change (Z.to_nat 4) with 4%nat.
+      apply app_i32. unfold s32. lia.
+  - (* OLongUint *)
+    unfold oappend_long_uint. rewrite (u8_small n) by lia.
+    destruct (8 <? n) eqn:E; [lia|].
+    set (src := be_bytes (Z.to_nat n) (u64 v) ++ repeat 0 (Z.to_nat (8 - n))).
+    assert (F : firstn (Z.to_nat n) src = be_bytes (Z.to_nat n) v).
+    { unfold src. rewrite firstn_app, obe_bytes_length, Nat.sub_diag. cbn [firstn].
+      rewrite app_nil_r, firstn_all2 by (rewrite obe_bytes_length; lia).
+      rewrite u64_pow. apply be_bytes_mod. lia. }
+    rewrite <- F. apply appender_bytes.
+    + unfold src, len. rewrite app_length, obe_bytes_length, repeat_length. lia.
+    + lia.
+    + unfold src. apply Forall_app. split; [apply obe_bytes_ok|].
+      apply Forall_forall. intros x Hx. apply repeat_spec in Hx. subst x. unfold is_byte; lia.
+  - (* OFloat *) unfold oappend_float. apply app_u32. unfold u32. lia.
+  - (* ODouble *) unfold oappend_double. apply app_u64. unfold u64. lia.
+  - (* OBool *)
+    unfold oappend_bool. destruct b.
+    + apply (app_u8 255 255 eq_refl).
+    + apply (app_u8 0 0 eq_refl).
+  - (* OLenDet *)
+    unfold oappend_length_determinant.
+    assert (Hl : 0 <= u32 n < 4294967296) by (unfold u32; lia).
+    set (l := u32 n) in *.
+    destruct (l <? 128) eqn:E1; [|destruct (l <? 256) eqn:E2;
+      [|destruct (l <? 65536) eqn:E3; [|destruct (l <? 16777216) eqn:E4]]].
+    + replace [l] with (be_bytes 1 l)
+        by (cbn [be_bytes]; change (8 * Z.of_nat 0) with 0; rewrite Z.shiftr_0_r, u8_small by lia; reflexivity).
+      apply app_i8. unfold s8. lia.
+    + change [129; l] with ([129] ++ [l]).
+      replace [l] with (be_bytes 1 l)
+        by (cbn [be_bytes]; change (8 * Z.of_nat 0) with 0; rewrite Z.shiftr_0_r, u8_small by lia; reflexivity).
+      apply (appender_seq (fun s => oappend_uint8 s 129) (fun s => oappend_uint8 s (u8 l))).
+      * apply (app_u8 129 129 eq_refl).
+      * apply app_u8. unfold u8. lia.
+    + change (130 :: be_bytes 2 l) with ([130] ++ be_bytes 2 l).
+      apply (appender_seq (fun s => oappend_uint8 s 130) (fun s => oappend_uint16 s (u16 l))).
+      * apply (app_u8 130 130 eq_refl).
+      * apply app_u16. unfold u16. lia.
+    + rewrite <- lendet_form4 by lia. now apply app_u32.
+    + change (132 :: be_bytes 4 l) with ([132] ++ be_bytes 4 l).
+      apply (appender_seq (fun s => oappend_uint8 s 132) (fun s => oappend_uint32 s l)).
+      * apply (app_u8 132 132 eq_refl).
+      * now apply app_u32.
+Qed.
+
+Lemma oeop_spec_len o : oeop_ok o -> len (oeop_spec o) = oeop_bytes o.
+Proof.
+  intros Ok. unfold len.
+  destruct o; cbn [oeop_spec oeop_bytes oeop_ok] in *; rewrite ?obe_bytes_length; try reflexivity.
+  - destruct Ok as (H1 & H2 & H3). rewrite firstn_length. unfold len in *. lia.
+  - destruct ((1 <=? n) && (n <=? 3)); lia.
+  - destruct ((1 <=? n) && (n <=? 3)); lia.
+  - lia.
+  - unfold length_determinant_length. cbv zeta.
+    destruct (u32 n <? 128); [reflexivity|]. destruct (u32 n <? 256); [reflexivity|].
+    destruct (u32 n <? 65536); [reflexivity|]. destruct (u32 n <? 16777216); reflexivity.
+Qed.
+
+Lemma oeop_bytes_nonneg o : oeop_ok o -> 0 <= oeop_bytes o.
+Proof. intros Ok. rewrite <- oeop_spec_len by auto. apply len_nonneg. Qed.
+
+(* ------------------------------------------------------------------ *)
+(** * Group 1: in bounds, latch (encoder) *)
+
+Theorem oeop_in_bounds : forall s o, owf s -> oeop_ok o ->
+  exists s', run_oeop s o = COk s' /\ owf s' /\ length (buf s') = length (buf s) /\ (olatched s -> s' = s).
+Proof.
+  intros s o W Ok.
+  destruct (oeop_is_abort o) eqn:NA.
+  - destruct o; try discriminate. cbn [run_oeop oeop_ok] in *.
+    destruct W as [L|L].
+    + eexists; split; [reflexivity|]. split; [right; now apply oabort_live_latched|].
+      rewrite oabort_live by auto. split; [reflexivity|]. intros H; destruct (olive_not_latched s L H).
+    + rewrite oabort_latched by auto. exists s. split; [reflexivity|]. split; [now right|]. split; auto.
+  - destruct (oeop_appender o Ok NA) as (P1 & P2 & P3). rewrite oeop_spec_len in P2, P3 by auto.
+    destruct W as [L|L].
+    + assert (NL : olatched s -> False) by apply (olive_not_latched s L).
+      destruct (Z.le_gt_cases (pos s + oeop_bytes o) (size s)) as [R|R].
+      * destruct (P3 s L R) as (s' & E & Q1 & _ & Q3 & _).
+        exists s'. split; [exact E|]. split; [now left|]. split; [exact Q3|]. intros H; destruct (NL H).
+      * destruct (P2 s L R) as (s' & E & Q1 & _ & Q3).
+        exists s'. split; [exact E|]. split; [now right|]. split; [exact Q3|]. intros H; destruct (NL H).
+    + exists s. split; [now apply P1|]. split; [now right|]. split; auto.
+Qed.
+
+Theorem oer_helpers_in_bounds_enc : forall os s, owf s -> Forall oeop_ok os ->
+  exists s', run_oeops s os = COk s' /\ owf s' /\ length (buf s') = length (buf s) /\ (olatched s -> s' = s).
+Proof.
+  induction os as [|o os IH]; intros s W F.
+  - exists s. cbn [run_oeops]. repeat split; auto.
+  - inversion F as [|? ? Ho Hos]; subst. cbn [run_oeops].
+    destruct (oeop_in_bounds s o W Ho) as (s1 & -> & W1 & L1 & K1). cbn [cbind].
+    destruct (IH s1 W1 Hos) as (s2 & E & W2 & L2 & K2).
+    exists s2. split; [exact E|]. split; [exact W2|]. split; [congruence|].
+    intros H. specialize (K1 H). subst s1. now apply K2.
+Qed.
+
+Theorem oer_enc_overflow_latches : forall s o, olive s -> oeop_ok o -> oeop_is_abort o = false ->
+  size s < pos s + oeop_bytes o ->
+  exists s', run_oeop s o = COk s' /\ olatched s' /\ oget_result s' = - ENOMEM.
+Proof.
+  intros s o L Ok NA R. destruct (oeop_appender o Ok NA) as (_ & P2 & _).
+  rewrite oeop_spec_len in P2 by auto.
+  destruct (P2 s L R) as (s' & E & Q1 & Q2 & _). exists s'. auto.
+Qed.
+
+Lemma run_oeops_app s os1 os2 :
+  run_oeops s (os1 ++ os2) = let+ s1 := run_oeops s os1 in run_oeops s1 os2.
+Proof.
+  revert s; induction os1 as [|o os1 IH]; intros s; [reflexivity|].
+  cbn [app run_oeops]. destruct (run_oeop s o); cbn [cbind]; auto.
+Qed.
+
+Theorem oer_enc_latch_sticky : forall os1 os2 s s1, owf s -> Forall oeop_ok (os1 ++ os2) ->
+  run_oeops s os1 = COk s1 -> olatched s1 -> run_oeops s (os1 ++ os2) = COk s1.
+Proof.
+  intros os1 os2 s s1 W F E L. rewrite run_oeops_app, E. cbn [cbind].
+  apply Forall_app in F. destruct F as [_ F2].
+  destruct (oer_helpers_in_bounds_enc os2 s1 (or_intror L) F2) as (s2 & E2 & _ & _ & K).
+  rewrite E2. f_equal. now apply K.
+Qed.
+
+(* ------------------------------------------------------------------ *)
+(** * Group 3 (encoder): functional correctness *)
+
+Theorem oeop_matches_spec : forall s o, olive s -> oeop_ok o -> oeop_is_abort o = false ->
+  pos s + oeop_bytes o <= size s ->
+  exists s', run_oeop s o = COk s' /\ olive s' /\ size s' = size s /\
+             pos s' = pos s + oeop_bytes o /\ owritten s' = owritten s ++ oeop_spec o.
+Proof.
+  intros s o L Ok NA R. destruct (oeop_appender o Ok NA) as (_ & _ & P3).
+  rewrite oeop_spec_len in P3 by auto.
+  destruct (P3 s L R) as (s' & E & Q1 & Q2 & Q3 & Q4 & Q5 & _).
+  rewrite oeop_spec_len in Q4 by auto.
+  exists s'. repeat split; auto; apply Q1.
+Qed.
+
+Theorem oer_helpers_match_x696 : forall os s, olive s -> Forall oeop_ok os -> ono_abort os ->
+  pos s + ototal_bytes os <= size s ->
+  exists s', run_oeops s os = COk s' /\ olive s' /\ size s' = size s /\
+             pos s' = pos s + ototal_bytes os /\
+             owritten s' = owritten s ++ flat_map oeop_spec os.
+Proof.
+  assert (TB : forall os, Forall oeop_ok os -> 0 <= ototal_bytes os).
+  { induction 1 as [|o os Ho Hos IH]; cbn [ototal_bytes fold_right]; [lia|].
+    pose proof (oeop_bytes_nonneg o Ho). fold (ototal_bytes os). lia. }
+  induction os as [|o os IH]; intros s L F NA R.
+  - exists s. cbn [run_oeops ototal_bytes fold_right flat_map]. rewrite app_nil_r.
+    split; [reflexivity|]. split; [exact L|]. split; [reflexivity|]. split; [lia|reflexivity].
+  - inversion F as [|? ? Ho Hos]; subst. inversion NA as [|? ? No Nos]; subst.
+    cbn [ototal_bytes fold_right] in *. fold (ototal_bytes os) in *.
+    pose proof (TB os Hos).
+    destruct (oeop_matches_spec s o L Ho No ltac:(lia)) as (s1 & E1 & L1 & S1 & P1 & W1).
+    destruct (IH s1 L1 Hos Nos ltac:(lia)) as (s2 & E2 & L2 & S2 & P2 & W2).
+    exists s2. cbn [run_oeops]. rewrite E1. cbn [cbind]. split; [exact E2|].
+    split; [exact L2|]. split; [congruence|]. split; [lia|].
+    rewrite W2, W1. cbn [flat_map]. now rewrite app_assoc.
+Qed.
+
+(* ================================================================== *)
+(** * Decoder *)
+
+Definition adv (s : cur) (n : Z) : cur := mkCur (buf s) (size s) (pos s + n).
+
+Lemma adv_adv s a b : adv (adv s a) b = adv s (a + b).
+Proof. unfold adv. cbn [buf size pos]. f_equal. lia. Qed.
+
+Lemma adv_0 s : adv s 0 = s.
+Proof. unfold adv. rewrite Z.add_0_r. apply cur_eta. Qed.
+
+Lemma olive_adv' s n : olive s -> 0 <= n -> pos s + n <= size s -> olive (adv s n).
+Proof. apply olive_adv. Qed.
+
+Lemma oabort_adv' s e n : olive s -> abort (adv s n) e = abort s e.
+Proof. apply oabort_adv. Qed.
+
+(** ** the octets under the cursor *)
+
+Lemma obytes_at_length s n : olive s -> 0 <= n -> pos s + n <= size s -> length (obytes_at s n) = Z.to_nat n.
+Proof.
+  intros (L1 & L2 & _) Hn H. unfold obytes_at. rewrite firstn_length, skipn_length. unfold len in *. lia.
+Qed.
+
+Lemma obytes_at_nthz s n j : 0 <= pos s -> 0 <= j < n -> nthz (obytes_at s n) j = nthz (buf s) (pos s + j).
+Proof.
+  intros Hp Hj. unfold obytes_at. rewrite nthz_firstn by lia. rewrite nthz_skipn by lia.
+  f_equal. lia.
+Qed.
+
+Lemma bytes_ok_skipn n l : bytes_ok l -> bytes_ok (skipn n l).
+Proof.
+  unfold bytes_ok. revert l. induction n; intros l H; [exact H|].
+  destruct l; [constructor|]. cbn [skipn]. inversion H; auto.
+Qed.
+
+Lemma obytes_at_ok s n : olive s -> bytes_ok (obytes_at s n).
+Proof. intros (_ & _ & _ & B). unfold obytes_at. apply bytes_ok_firstn. now apply bytes_ok_skipn. Qed.
+
+Lemma obytes_at_app s a b : olive s -> 0 <= a -> 0 <= b -> pos s + a + b <= size s ->
+  obytes_at s (a + b) = obytes_at s a ++ obytes_at (adv s a) b.
+Proof.
+  intros L Ha Hb H. pose proof L as (L1 & L2 & _).
+  assert (LA : length (obytes_at s a) = Z.to_nat a) by (apply obytes_at_length; auto; lia).
+  assert (LB : length (obytes_at (adv s a) b) = Z.to_nat b).
+  { apply obytes_at_length; [apply olive_adv'; auto; lia|lia|unfold adv; cbn [size pos]; lia]. }
+  assert (LC : length (obytes_at s (a + b)) = Z.to_nat (a + b)) by (apply obytes_at_length; auto; lia).
+  apply nthz_ext.
+  - rewrite app_length, LA, LB, LC. lia.
+  - intros i Hi. unfold len in Hi. rewrite LC in Hi.
+    rewrite obytes_at_nthz by lia.
+    destruct (Z.ltb_spec i a).
+    + rewrite nthz_app_l by (unfold len; lia). now rewrite obytes_at_nthz by lia.
+    + rewrite nthz_app_r by (unfold len; lia). unfold len. rewrite LA.
+      rewrite obytes_at_nthz by (unfold adv; cbn [pos]; lia).
+      unfold adv; cbn [buf pos]. f_equal. lia.
+Qed.
+
+(** ** memset *)
+
+Lemma memset_loop_spec : forall k dst i, 0 <= i -> i + Z.of_nat k <= len dst ->
+  exists d, memset_loop k dst i = COk d /\ length d = length dst /\
+    forall j, 0 <= j -> nthz d j = if (i <=? j) && (j <? i + Z.of_nat k) then 0 else nthz dst j.
+Proof.
+  induction k as [|k IH]; intros dst i Hi Hd.
+  - exists dst. cbn [memset_loop]. repeat split; auto.
+    intros j Hj. destruct ((i <=? j) && (j <? i + Z.of_nat 0)) eqn:E; [lia|reflexivity].
+  - cbn [memset_loop]. rewrite wr_ok by lia. cbn [cbind].
+    destruct (IH (upd dst (Z.to_nat i) 0) (i + 1)) as (d & E & L & N); try rewrite upd_len; try lia.
+    exists d. split; [exact E|]. split; [now rewrite L, upd_length|].
+    intros j Hj. rewrite N by lia. rewrite nthz_upd by lia.
+    destruct ((i + 1 <=? j) && (j <? i + 1 + Z.of_nat k)) eqn:E1;
+    destruct ((i <=? j) && (j <? i + Z.of_nat (S k))) eqn:E2;
+    destruct (j =? i) eqn:E3; try lia; reflexivity.
+Qed.
+
+(** the destination after a failed read: zeroed over the requested length *)
+Definition zfill (dst : list Z) (n : Z) : list Z := repeat 0 (Z.to_nat n) ++ skipn (Z.to_nat n) dst.
+
+Lemma zfill_length dst n : 0 <= n <= len dst -> length (zfill dst n) = length dst.
+Proof. intros H. unfold zfill. rewrite app_length, repeat_length, skipn_length. unfold len in *. lia. Qed.
+
+Lemma memset_zfill dst n : 0 <= n <= len dst -> memset_loop (Z.to_nat n) dst 0 = COk (zfill dst n).
+Proof.
+  intros H. destruct (memset_loop_spec (Z.to_nat n) dst 0) as (d & -> & L & N); try lia.
+  f_equal. apply nthz_ext.
+  - now rewrite zfill_length.
+  - intros i Hi. rewrite N by lia. unfold zfill.
+    assert (LR : len (repeat 0 (Z.to_nat n)) = n) by (unfold len; rewrite repeat_length; lia).
+    destruct ((0 <=? i) && (i <? 0 + Z.of_nat (Z.to_nat n))) eqn:E.
+    + rewrite nthz_app_l by lia. now rewrite nthz_repeat0.
+    + rewrite nthz_app_r by lia. rewrite LR, nthz_skipn by lia. f_equal. lia.
+Qed.
+
+Lemma zfill_zeros cap n : 0 <= n <= cap -> zfill (zeros cap) n = zeros cap.
+Proof.
+  intros H. unfold zfill, zeros. rewrite skipn_repeat, <- repeat_app. f_equal. lia.
+Qed.
+
+(** ** decoder_read_bytes *)
+
+Lemma oread_bytes_latched s dst n : olatched s -> 0 <= n <= len dst -> n < 4611686018427387904 ->
+  oread_bytes s dst n = COk (s, zfill dst n).
+Proof.
+  intros L Hn Hn2. unfold oread_bytes, odecoder_free.
+  destruct (oalloc_latched EOUTOFDATA s n L) as (p & -> & Hp); [lia|unfold EOUTOFDATA; lia|].
+  cbn [cbind]. destruct (p >=? 0) eqn:E; [lia|].
+  rewrite u64_small by lia. rewrite memset_zfill by lia. reflexivity.
+Qed.
+
+Lemma oread_bytes_noroom s dst n : olive s -> 0 <= n <= len dst -> n < 4611686018427387904 ->
+  size s < pos s + n -> oread_bytes s dst n = COk (abort s EOUTOFDATA, zfill dst n).
+Proof.
+  intros L Hn Hn2 H. unfold oread_bytes, odecoder_free.
+  rewrite oalloc_live_noroom by (auto; lia). cbn [cbind].
+  destruct (- EOUTOFDATA >=? 0) eqn:E; [unfold EOUTOFDATA in E; lia|].
+  rewrite u64_small by lia. rewrite memset_zfill by lia. reflexivity.
+Qed.
+
+Lemma oread_bytes_room s dst n : olive s -> 0 <= n <= len dst -> pos s + n <= size s ->
+  oread_bytes s dst n = COk (adv s n, obytes_at s n ++ skipn (Z.to_nat n) dst).
+Proof.
+  intros L Hn Hr. pose proof (olive_len s L) as HL. pose proof L as (L1 & L2 & _ & L4).
+  unfold oread_bytes, odecoder_free.
+  rewrite oalloc_live_room by (auto; lia). cbn [cbind buf size pos].
+  destruct (pos s >=? 0) eqn:E; [|lia]. clear E.
+  rewrite u64_small by lia.
+  destruct (memcpy_spec dst 0 (buf s) (pos s) n) as (d & -> & Ld & _ & Nd); try lia.
+  cbn [cbind]. unfold adv. do 2 f_equal.
+  assert (LA : len (obytes_at s n) = n) by (unfold len; rewrite obytes_at_length by (auto; lia); lia).
+  apply nthz_ext.
+  - rewrite app_length, skipn_length, obytes_at_length by (auto; lia). unfold len in *. lia.
+  - intros i Hi. rewrite Nd by lia.
+    destruct ((0 <=? i) && (i <? 0 + n)) eqn:E1.
+    + rewrite nthz_app_l by lia. rewrite obytes_at_nthz by lia. f_equal. lia.
+    + rewrite nthz_app_r by lia. rewrite LA, nthz_skipn by lia. f_equal. lia.
+Qed.
+
+(** ** readers *)
+
+Definition oreader {A} (R : cur -> cres (cur * A)) (k : Z) (val : cur -> A) (Q : A -> Prop) : Prop :=
+  (forall s, olatched s -> exists a, R s = COk (s, a) /\ Q a) /\
+  (forall s, olive s -> size s < pos s + k -> exists a, R s = COk (abort s EOUTOFDATA, a) /\ Q a) /\
+  (forall s, olive s -> pos s + k <= size s -> R s = COk (adv s k, val s) /\ Q (val s)).
+
+Lemma oreader_bind {A B} (R : cur -> cres (cur * A)) k val Q
+      (K : cur -> A -> cres (cur * B)) (g : A -> B) (Q' : B -> Prop) :
+  oreader R k val Q ->
+  (forall s1 a, Q a -> K s1 a = COk (s1, g a)) -> (forall a, Q a -> Q' (g a)) ->
+  oreader (fun s => let+ (s1, a) := R s in K s1 a) k (fun s => g (val s)) Q'.
+Proof.
+  intros (R1 & R2 & R3) HK HQ. split; [|split].
+  - intros s L. destruct (R1 s L) as (a & -> & Qa). cbn [cbind]. exists (g a). split; auto.
+  - intros s L H. destruct (R2 s L H) as (a & -> & Qa). cbn [cbind]. exists (g a). split; auto.
+  - intros s L H. destruct (R3 s L H) as (-> & Qa). cbn [cbind]. split; auto.
+Qed.
+
+Lemma oreader_val {A} (R : cur -> cres (cur * A)) k val val' Q :
+  oreader R k val Q ->
+  (forall s, olive s -> pos s + k <= size s -> val s = val' s) ->
+  oreader R k val' Q.
+Proof.
+  intros (R1 & R2 & R3) HV. split; [|split]; auto.
+  intros s L H. rewrite <- (HV s L H). auto.
+Qed.
+
+(** two readers in sequence *)
+Lemma oreader_seq {A B C} (R1 : cur -> cres (cur * A)) k1 v1 Q1
+      (R2 : cur -> cres (cur * B)) k2 v2 Q2 (f : A -> B -> C) (Q : C -> Prop) :
+  0 <= k1 -> 0 <= k2 -> oreader R1 k1 v1 Q1 -> oreader R2 k2 v2 Q2 ->
+  (forall a b, Q1 a -> Q2 b -> Q (f a b)) ->
+  oreader (fun s => let+ (s1, a) := R1 s in let+ (s2, b) := R2 s1 in COk (s2, f a b)) (k1 + k2)
+          (fun s => f (v1 s) (v2 (adv s k1))) Q.
+Proof.
+  intros H1 H2 (A1 & A2 & A3) (B1 & B2 & B3) HQ. split; [|split].
+  - intros s L. destruct (A1 s L) as (a & -> & Qa). cbn [cbind].
+    destruct (B1 s L) as (b & -> & Qb). cbn [cbind]. eauto.
+  - intros s L H. destruct (Z.le_gt_cases (pos s + k1) (size s)) as [R|R].
+    + destruct (A3 s L R) as (-> & Qa). cbn [cbind].
+      destruct (B2 (adv s k1)) as (b & -> & Qb).
+      * apply olive_adv'; auto.
+      * unfold adv; cbn [size pos]. lia.
+      * cbn [cbind]. rewrite oabort_adv' by auto. eauto.
+    + destruct (A2 s L R) as (a & -> & Qa). cbn [cbind].
+      destruct (B1 (abort s EOUTOFDATA)) as (b & -> & Qb).
+      * apply oabort_live_latched; auto. unfold EOUTOFDATA; lia.
+      * cbn [cbind]. eauto.
+  - intros s L H. destruct (A3 s L ltac:(lia)) as (-> & Qa). cbn [cbind].
+    destruct (B3 (adv s k1)) as (-> & Qb).
+    + apply olive_adv'; auto; lia.
+    + unfold adv; cbn [size pos]. lia.
+    + cbn [cbind]. rewrite adv_adv. split; auto.
+Qed.
+
+Lemma oread_bytes_reader dst n : 0 <= n <= len dst -> n < 4611686018427387904 ->
+  oreader (fun s => oread_bytes s dst n) n
+    (fun s => obytes_at s n ++ skipn (Z.to_nat n) dst) (fun d => length d = length dst).
+Proof.
+  intros Hn Hn2. split; [|split].
+  - intros s L. exists (zfill dst n). split; [now apply oread_bytes_latched|now apply zfill_length].
+  - intros s L H. exists (zfill dst n). split; [now apply oread_bytes_noroom|now apply zfill_length].
+  - intros s L H. split; [apply oread_bytes_room; auto; lia|].
+    rewrite app_length, skipn_length, obytes_at_length by (auto; lia). unfold len in *. lia.
+Qed.
+
+(** ** decoder_read_uint8: the three regimes, with the value *)
+
+Lemma oread_uint8_latched s : olatched s -> oread_uint8 s = COk (s, 0).
+Proof.
+  intros L. unfold oread_uint8. rewrite oread_bytes_latched by (auto; unfold len; cbn [length]; lia).
+  reflexivity.
+Qed.
+
+Lemma oread_uint8_noroom s : olive s -> size s < pos s + 1 ->
+  oread_uint8 s = COk (abort s EOUTOFDATA, 0).
+Proof.
+  intros L H. unfold oread_uint8. rewrite oread_bytes_noroom by (auto; unfold len; cbn [length]; lia).
+  reflexivity.
+Qed.
+
+Lemma obytes_at_1 s : olive s -> pos s + 1 <= size s -> obytes_at s 1 = [nthz (buf s) (pos s)].
+Proof.
+  intros L H. pose proof L as (_ & L2 & _).
+  pose proof (obytes_at_length s 1 L ltac:(lia) H) as HL.
+  pose proof (obytes_at_nthz s 1 0 ltac:(lia) ltac:(lia)) as HN.
+  destruct (obytes_at s 1) as [|a [|? ?]]; try discriminate.
+  rewrite nthz_cons_0 in HN. rewrite Z.add_0_r in HN. now subst a.
+Qed.
+
+Lemma oread_uint8_room s : olive s -> pos s + 1 <= size s ->
+  oread_uint8 s = COk (adv s 1, nthz (buf s) (pos s)).
+Proof.
+  intros L H. unfold oread_uint8. rewrite oread_bytes_room by (auto; unfold len; cbn [length]; lia).
+  rewrite obytes_at_1 by auto. reflexivity.
+Qed.
+
+(** ** fixed-width readers: the value is the big-endian value of the octets *)
+
+Ltac bytes_inv Bl :=
+  repeat match type of Bl with
+  | bytes_ok (_ :: _) => let H := fresh "Hb" in let B := fresh "Bl" in
+                         inversion Bl as [|? ? H B]; subst; clear Bl; rename B into Bl
+  | Forall _ (_ :: _) => let H := fresh "Hb" in let B := fresh "Bl" in
+                         inversion Bl as [|? ? H B]; subst; clear Bl; rename B into Bl
+  end.
+
+Lemma oread_uint8_reader :
+  oreader oread_uint8 1 (fun s => be_value (obytes_at s 1)) (fun _ => True).
+Proof.
+  split; [|split].
+  - intros s L. exists 0. split; auto. now apply oread_uint8_latched.
+  - intros s L H. exists 0. split; auto. now apply oread_uint8_noroom.
+  - intros s L H. split; auto. rewrite oread_uint8_room, obytes_at_1 by auto.
+    unfold be_value; cbn [be_value_acc]. do 2 f_equal.
+Qed.
+
+Lemma oread_uint16_reader :
+  oreader oread_uint16 2 (fun s => be_value (obytes_at s 2)) (fun _ => True).
+Proof.
+  unfold oread_uint16.
+  eapply oreader_val.
+  - eapply (oreader_bind (fun s => oread_bytes s [0; 0] 2) 2 _ _
+             (fun s1 d => let+ a := rd d 0 in let+ b := rd d 1 in
+                          COk (s1, u16 (Z.lor (u16 (Z.shiftl a 8)) b)))
+             (fun d => u16 (Z.lor (u16 (Z.shiftl (nthz d 0) 8)) (nthz d 1))) (fun _ => True)).
+    + apply oread_bytes_reader; unfold len; cbn [length]; lia.
+    + intros s1 d Hd. cbn [length] in Hd. rewrite !rd_ok by (unfold len; lia). reflexivity.
+    + auto.
+  - intros s L H. cbv beta. change (Z.to_nat 2) with 2%nat. cbn [skipn]. rewrite app_nil_r.
+    pose proof (obytes_at_length s 2 L ltac:(lia) H) as HL. pose proof (obytes_at_ok s 2 L) as Bl.
+    destruct (obytes_at s 2) as [|a [|b [|? ?]]]; try discriminate.
+    bytes_inv Bl. unfold is_byte in *.
+    unfold be_value; cbn [be_value_acc].
+    nthz_concrete.
+    rewrite Z.shiftl_mul_pow2 by lia. change (2 ^ 8) with 256.
+    unfold u16. rewrite (Z.mod_small (a * 256)) by lia.
+    lor_add_step 8. rewrite Z.mod_small by lia. lia.
+Qed.
+
+Lemma oread_uint32_reader :
+  oreader oread_uint32 4 (fun s => be_value (obytes_at s 4)) (fun _ => True).
+Proof.
+  unfold oread_uint32.
+  eapply oreader_val.
+  - eapply (oreader_bind (fun s => oread_bytes s [0; 0; 0; 0] 4) 4 _ _
+             (fun s1 d => let+ a := rd d 0 in let+ b := rd d 1 in let+ c := rd d 2 in let+ e := rd d 3 in
+                COk (s1, Z.lor (Z.lor (Z.lor (u32 (Z.shiftl a 24)) (u32 (Z.shiftl b 16)))
+                                      (u32 (Z.shiftl c 8))) e))
+             (fun d => Z.lor (Z.lor (Z.lor (u32 (Z.shiftl (nthz d 0) 24)) (u32 (Z.shiftl (nthz d 1) 16)))
+                                      (u32 (Z.shiftl (nthz d 2) 8))) (nthz d 3)) (fun _ => True)).
+    + apply oread_bytes_reader; unfold len; cbn [length]; lia.
+    + intros s1 d Hd. cbn [length] in Hd. rewrite !rd_ok by (unfold len; lia). reflexivity.
+    + auto.
+  - intros s L H. cbv beta. change (Z.to_nat 4) with 4%nat. cbn [skipn]. rewrite app_nil_r.
+    pose proof (obytes_at_length s 4 L ltac:(lia) H) as HL. pose proof (obytes_at_ok s 4 L) as Bl.
+    destruct (obytes_at s 4) as [|a [|b [|c [|e [|? ?]]]]]; try discriminate.
+    bytes_inv Bl. unfold is_byte in *.
+    unfold be_value; cbn [be_value_acc].
+    nthz_concrete.
+    rewrite !Z.shiftl_mul_pow2 by lia.
+    change (2 ^ 24) with 16777216. change (2 ^ 16) with 65536. change (2 ^ 8) with 256.
+    unfold u32. rewrite !Z.mod_small by lia.
+    lor_add_step 24. lor_add_step 16. lor_add_step 8. lia.
+Qed.
+
+Lemma oread_uint64_reader :
+  oreader oread_uint64 8 (fun s => be_value (obytes_at s 8)) (fun _ => True).
+Proof.
+  unfold oread_uint64.
+  eapply oreader_val.
+  - eapply (oreader_bind (fun s => oread_bytes s [0; 0; 0; 0; 0; 0; 0; 0] 8) 8 _ _
+             (fun s1 d =>
+                let+ b0 := rd d 0 in let+ b1 := rd d 1 in let+ b2 := rd d 2 in let+ b3 := rd d 3 in
+                let+ b4 := rd d 4 in let+ b5 := rd d 5 in let+ b6 := rd d 6 in let+ b7 := rd d 7 in
+                COk (s1, Z.lor (Z.lor (Z.lor (Z.lor (Z.lor (Z.lor (Z.lor
+                  (u64 (Z.shiftl b0 56)) (u64 (Z.shiftl b1 48))) (u64 (Z.shiftl b2 40)))
+                  (u64 (Z.shiftl b3 32))) (u64 (Z.shiftl b4 24))) (u64 (Z.shiftl b5 16)))
+                  (u64 (Z.shiftl b6 8))) b7))
+             (fun d => Z.lor (Z.lor (Z.lor (Z.lor (Z.lor (Z.lor (Z.lor
+                  (u64 (Z.shiftl (nthz d 0) 56)) (u64 (Z.shiftl (nthz d 1) 48))) (u64 (Z.shiftl (nthz d 2) 40)))
+                  (u64 (Z.shiftl (nthz d 3) 32))) (u64 (Z.shiftl (nthz d 4) 24))) (u64 (Z.shiftl (nthz d 5) 16)))
+                  (u64 (Z.shiftl (nthz d 6) 8))) (nthz d 7)) (fun _ => True)).
+    + apply oread_bytes_reader; unfold len; cbn [length]; lia.
+    + intros s1 d Hd. cbn [length] in Hd. rewrite !rd_ok by (unfold len; lia). reflexivity.
+    + auto.
+  - intros s L H. cbv beta. change (Z.to_nat 8) with 8%nat. cbn [skipn]. rewrite app_nil_r.
+    pose proof (obytes_at_length s 8 L ltac:(lia) H) as HL. pose proof (obytes_at_ok s 8 L) as Bl.
+    destruct (obytes_at s 8) as [|b0 [|b1 [|b2 [|b3 [|b4 [|b5 [|b6 [|b7 [|? ?]]]]]]]]]; try discriminate.
+    bytes_inv Bl. unfold is_byte in *.
+    unfold be_value; cbn [be_value_acc].
+    nthz_concrete.
+    rewrite !Z.shiftl_mul_pow2 by lia.
+    change (2 ^ 56) with 72057594037927936. change (2 ^ 48) with 281474976710656.
+    change (2 ^ 40) with 1099511627776. change (2 ^ 32) with 4294967296.
+    change (2 ^ 24) with 16777216. change (2 ^ 16) with 65536. change (2 ^ 8) with 256.
+    unfold u64. rewrite !Z.mod_small by lia.
+    lor_add_step 56. lor_add_step 48. lor_add_step 40. lor_add_step 32.
+    lor_add_step 24. lor_add_step 16. lor_add_step 8. lia.
+Qed.
+
+Lemma oreader_map {A B} (R : cur -> cres (cur * A)) k val (f : A -> B) (Q' : B -> Prop) :
+  oreader R k val (fun _ => True) -> (forall a, Q' (f a)) ->
+  oreader (fun s => let+ (s', v) := R s in COk (s', f v)) k (fun s => f (val s)) Q'.
+Proof.
+  intros H HQ.
+  apply (oreader_bind R k val (fun _ => True) (fun s' v => COk (s', f v)) f Q'); auto.
+Qed.
+
+Lemma oread_int8_reader : oreader oread_int8 1 (fun s => s8 (be_value (obytes_at s 1))) (fun _ => True).
+Proof. unfold oread_int8. apply (oreader_map oread_uint8 1 _ s8); [apply oread_uint8_reader|auto]. Qed.
+Lemma oread_int16_reader : oreader oread_int16 2 (fun s => s16 (be_value (obytes_at s 2))) (fun _ => True).
+Proof. unfold oread_int16. apply (oreader_map oread_uint16 2 _ s16); [apply oread_uint16_reader|auto]. Qed.
+Lemma oread_int32_reader : oreader oread_int32 4 (fun s => s32 (be_value (obytes_at s 4))) (fun _ => True).
+Proof. unfold oread_int32. apply (oreader_map oread_uint32 4 _ s32); [apply oread_uint32_reader|auto]. Qed.
+Lemma oread_int64_reader : oreader oread_int64 8 (fun s => s64 (be_value (obytes_at s 8))) (fun _ => True).
+Proof. unfold oread_int64. apply (oreader_map oread_uint64 8 _ s64); [apply oread_uint64_reader|auto]. Qed.
+
+Lemma oread_bool_reader :
+  oreader oread_bool 1 (fun s => negb (be_value (obytes_at s 1) =? 0)) (fun _ => True).
+Proof.
+  unfold oread_bool.
+  apply (oreader_map oread_uint8 1 _ (fun b => negb (b =? 0))); [apply oread_uint8_reader|auto].
+Qed.
+
+(** a call that reads nothing *)
+Lemma oreader_const {A} (c : A) (Q : A -> Prop) : Q c -> oreader (fun s => COk (s, c)) 0 (fun _ => c) Q.
+Proof.
+  intros HQ. split; [|split].
+  - intros s L. eauto.
+  - intros s (_ & L2 & _) H. lia.
+  - intros s L H. rewrite adv_0. auto.
+Qed.
+
+(** the 24 bit form: one octet then two *)
+Definition v24 (a b : Z) : Z := Z.lor (u32 (Z.shiftl a 16)) b.
+
+Lemma oread_u24_reader :
+  oreader (fun s => let+ (s1, a) := oread_uint8 s in let+ (s2, b) := oread_uint16 s1 in COk (s2, v24 a b))
+    3 (fun s => v24 (be_value (obytes_at s 1)) (be_value (obytes_at (adv s 1) 2))) (fun _ => True).
+Proof.
+  change 3 with (1 + 2).
+  apply (oreader_seq oread_uint8 1 _ (fun _ => True) oread_uint16 2 _ (fun _ => True) v24);
+    try lia; auto using oread_uint8_reader, oread_uint16_reader.
+Qed.
+
+Lemma be_value_acc_app acc l1 l2 : be_value_acc acc (l1 ++ l2) = be_value_acc (be_value_acc acc l1) l2.
+Proof. revert acc; induction l1; intros acc; cbn [app be_value_acc]; auto. Qed.
+
+Lemma v24_value s : olive s -> pos s + 3 <= size s ->
+  v24 (be_value (obytes_at s 1)) (be_value (obytes_at (adv s 1) 2)) = be_value (obytes_at s 3).
+Proof.
+  intros L H. pose proof L as (_ & L2 & _).
+  change 3 with (1 + 2) at 3. rewrite obytes_at_app by (auto; lia).
+  assert (LA : olive (adv s 1)) by (apply olive_adv'; auto; lia).
+  pose proof (obytes_at_length s 1 L ltac:(lia) ltac:(lia)) as H1.
+  pose proof (obytes_at_length (adv s 1) 2 LA ltac:(lia) ltac:(unfold adv; cbn [size pos]; lia)) as H2.
+  pose proof (obytes_at_ok s 1 L) as B1. pose proof (obytes_at_ok (adv s 1) 2 LA) as B2.
+  destruct (obytes_at s 1) as [|a [|? ?]]; try discriminate.
+  destruct (obytes_at (adv s 1) 2) as [|b [|c [|? ?]]]; try discriminate.
+  bytes_inv B1. bytes_inv B2. unfold is_byte in *.
+  unfold be_value; cbn [be_value_acc app]. unfold v24.
+  rewrite Z.shiftl_mul_pow2 by lia. change (2 ^ 16) with 65536.
+  unfold u32. rewrite Z.mod_small by lia.
+  lor_add_step 16. lia.
+Qed.
+
+(** decoder_read_long_uint *)
+Fixpoint lu_value (acc : Z) (l : list Z) : Z :=
+  match l with [] => acc | b :: r => lu_value (Z.lor b (u64 (Z.shiftl acc 8))) r end.
+
+Lemma obytes_at_S s k : olive s -> pos s + Z.of_nat (S k) <= size s ->
+  obytes_at s (Z.of_nat (S k)) = nthz (buf s) (pos s) :: obytes_at (adv s 1) (Z.of_nat k).
+Proof.
+  intros L H. replace (Z.of_nat (S k)) with (1 + Z.of_nat k) by lia.
+  rewrite obytes_at_app by (auto; lia). rewrite obytes_at_1 by (auto; lia). reflexivity.
+Qed.
+
+Lemma oread_long_uint_loop_reader : forall k acc,
+  oreader (fun s => oread_long_uint_loop k s acc) (Z.of_nat k)
+          (fun s => lu_value acc (obytes_at s (Z.of_nat k))) (fun _ => True).
+Proof.
+  induction k as [|k IH]; intros acc.
+  - cbn [oread_long_uint_loop]. change (Z.of_nat 0) with 0.
+    eapply oreader_val; [apply (oreader_const acc); exact I|].
+    intros s L H. unfold obytes_at. reflexivity.
+  - cbn [oread_long_uint_loop]. split; [|split].
+    + intros s L. rewrite oread_uint8_latched by auto. cbn [cbind].
+      destruct (IH (Z.lor 0 (u64 (Z.shiftl acc 8)))) as (R1 & _). now apply R1.
+    + intros s L H. destruct (Z.le_gt_cases (pos s + 1) (size s)) as [R|R].
+      * rewrite oread_uint8_room by auto. cbn [cbind].
+        destruct (IH (Z.lor (nthz (buf s) (pos s)) (u64 (Z.shiftl acc 8)))) as (_ & R2 & _).
+        destruct (R2 (adv s 1)) as (a & E & _).
+        -- apply olive_adv'; auto; lia.
+        -- unfold adv; cbn [size pos]. lia.
+        -- rewrite oabort_adv' in E by auto. eauto.
+      * rewrite oread_uint8_noroom by auto. cbn [cbind].
+        destruct (IH (Z.lor 0 (u64 (Z.shiftl acc 8)))) as (R1 & _).
+        apply R1. apply oabort_live_latched; auto. unfold EOUTOFDATA; lia.
+    + intros s L H. split; auto. rewrite oread_uint8_room by (auto; lia). cbn [cbind].
+      destruct (IH (Z.lor (nthz (buf s) (pos s)) (u64 (Z.shiftl acc 8)))) as (_ & _ & R3).
+      destruct (R3 (adv s 1)) as (-> & _).
+      * apply olive_adv'; auto; lia.
+      * unfold adv; cbn [size pos]. lia.
+      * rewrite adv_adv. rewrite obytes_at_S by auto. cbn [lu_value].
+        do 2 f_equal. f_equal. lia.
+Qed.
